@@ -255,6 +255,9 @@ if doc, ok := runtimeDoc(&v.@fieldName, @prefix, names...); ok  {
 
 		c.RenderT(`
 func(*@Type) RuntimeDoc(names ...string) ([]string, bool) {
+	if len(names) > 0 {
+		return nil, false
+	}
 	return @doc, true
 }
 
